@@ -10,7 +10,7 @@ Judge ==
   /\ LET r == Cases[cid]
          p == r.prefix = PrefixOf(r.left)
          s == StrictlySorted(r.proposals)
-         ident == r.kind \notin {"name", "attr"} \/ \A i \in 1..Len(r.proposals) : IsIdentifier(r.proposals[i])
+         ident == \A i \in 1..Len(r.proposals) : IsIdentifier(r.proposals[i])
          nomark == \A i \in 1..Len(r.proposals) : ~Contains(r.proposals[i], Marker)
          tr == ~r.transparent \/ r.proposals = r.expected IN
      /\ (IF p THEN TRUE ELSE Fail(cid, "Prefix", <<r.prefix, PrefixOf(r.left)>>))
